@@ -126,10 +126,8 @@ func parseClass(got float64, note string, want float64) string {
 		return "overflow-boundary"
 	case math.Signbit(got) != math.Signbit(want):
 		return "sign"
-	case ulpDist(got, want) == 1:
-		return "not-nearest(1ulp)"
 	}
-	return "not-nearest(>1ulp)"
+	return "not-nearest"
 }
 
 func sigDigits(s string) int {
@@ -169,7 +167,14 @@ func (e *env) parseFail(route, s string, got float64, note string, want float64,
 	if g == "" {
 		g = numStr(got)
 	}
-	*out = append(*out, fail{route + "|" + cls + "|" + lenBucket(s), fmt.Sprintf("%s of %q gives %s, expected %s", route, clip(s), g, numStr(want)),
+	sigRoute := route
+	switch route {
+	case "+string":
+		sigRoute = "Number(string)" // the same ToNumber
+	case "parseInt(s)", "parseInt(s,10)":
+		sigRoute = "parseInt"
+	}
+	*out = append(*out, fail{sigRoute + "|" + cls + "|" + lenBucket(s), fmt.Sprintf("%s of %q gives %s, expected %s", route, clip(s), g, numStr(want)),
 		Case{Kind: "parse", Route: route, Str: s, Got: g, Want: numStr(want)}})
 }
 
